@@ -103,3 +103,22 @@ def small_grammars(scratch, tag, *, nts, ts, max_rhs, max_prods, min_prods=1, si
         seen.add(key)
         out.append({"start": g["start"], "prods": prods})
     return out, res
+
+
+def idiom_grammars(scratch, tag, *, max_parts, same_terminals, add_tlc=None):
+    """Grammars from IdiomGen.tla (exhaustive): concatenations of list / option / wrapper idioms."""
+    consts = {"MaxParts": max_parts, "SameTerminals": "TRUE" if same_terminals else "FALSE"}
+    res = tlc(scratch, "IdiomGen", tag, constants=consts, invariants=["Bounded"], workers=1, timeout=1200)
+    if add_tlc:
+        add_tlc(res)
+    out, seen = [], set()
+    for g in _printed(res):
+        if "prods" not in g:
+            continue
+        prods = [[p[0], list(p[1])] for p in g["prods"]]
+        key = json.dumps(prods)
+        if key in seen:
+            continue
+        seen.add(key)
+        out.append({"start": g["start"], "prods": prods, "shape": list(g.get("shape", []))})
+    return out, res
